@@ -4,6 +4,7 @@ while recording the bytes emitted per source line, and judged by TLC (spec/Layou
 Python renders and records; it computes no expected bytes, offsets or label values."""
 import json
 import os
+import zlib
 import random
 from concurrent.futures import ProcessPoolExecutor
 
@@ -133,8 +134,16 @@ def rle(data):
 INSTR_KINDS = {'ins', 'pins', 'br', 'jal', 'pbr', 'pj', 'li', 'lil', 'imml', 'brk', 'jalk', 'pjk'}
 
 
+def stale_labels():
+    """A labels dictionary as a caller that assembles several images with ONE dictionary would pass it: the program's own
+    label names already present with stale values, in the reverse of program order, between names the program does not define."""
+    return {'ZQ9': 12, 'L2': 6, 'L1': 40000, 'start': 3, 'ZQ8': 1000000}
+
+
 def observe(prog, src, compress):
-    rec = impl.assemble_recorded(src, compress=compress)
+    # one of the two modes of every program (chosen by a checksum of its text) gets the used dictionary, the other a fresh one
+    used = (zlib.crc32(src.encode()) + int(compress)) % 2 == 0
+    rec = impl.assemble_recorded(src, compress=compress, labels=stale_labels() if used else None)
     n = len(prog)
     obs = {'status': 'ok', 'sizes': [0] * n, 'hw': [[] for _ in range(n)], 'rle': [[] for _ in range(n)],
            'labels': {'_': 0}, 'order': 1, 'outlen': 0, 'msg': ''}
